@@ -109,7 +109,10 @@ class C01(object):
                 "route": rnd.choice(["updateGeometry", "updateGeometry", "updateGV", "sf2gv", "get_local_gv"]),
                 "numba": rnd.random() < 0.35, "gstyle": rnd.choice([0, 1]),
                 # history: a long-lived columnfile first updated with OTHER parameters, which are then edited in place
-                "history": None if rnd.random() < 0.5 else {"first_pars": draw_pars(rnd),
+                "history": None if rnd.random() < 0.5 else {"first_pars": (draw_pars(rnd) if rnd.random() < 0.6 else "tiny"),
+                                                            "tiny": [rnd.choice(["distance", "y_center", "z_center", "y_size", "z_size",
+                                                                                 "tilt_x", "tilt_y", "tilt_z"]),
+                                                                     rnd.choice([1e-6, 4e-6, 1e-5, 1e-4])],
                                                             "edit": rnd.choice(["set", "set_parameters", "dict"])}}
 
     def describe(self, desc):
@@ -213,7 +216,13 @@ class C01(object):
             cp = base.copy()
             P2live = P2
             if hist:
-                P2live = prm.parameters(**hist["first_pars"])
+                fp = hist["first_pars"]
+                if fp == "tiny":
+                    # the last steps of a converging refinement: one detector parameter differs by a few parts per million
+                    fp = dict(P2.parameters)
+                    nm, rel = hist["tiny"]
+                    fp[nm] = fp[nm] * (1 + rel) if fp[nm] != 0 else rel
+                P2live = prm.parameters(**fp)
                 (cp.updateGeometry if route == "updateGeometry" else cp.updateGV)(pars=P2live, fast=True)
                 final = dict(P2.parameters)
                 if hist["edit"] == "set":
